@@ -106,6 +106,32 @@ def e2e(rng, ident):
     return "scn %s max=1048576 protocols=%s %s script=%s" % (ident, scn.PROTO, extra, ";".join(s))
 
 
+def served(rng, ident):
+    """several tagged / untagged calls, compressed calls and notifications arriving on ONE connection: each handler sees
+    exactly the tags of its own message (a later message lacking a key an earlier one carried must not show it)"""
+    import frames
+    pool = [b"user", b"trace", b"device", b"hello"]
+    s, inv = [], []
+    k = 2 + rng.below(4)
+    for i in range(k):
+        nonce = 100 + i
+        keys = [x for x in pool if rng.chance(1, 3)]
+        tags = ("m", [(("s", x), rng.choice([("s", b"v%d" % i), i, True])) for x in keys]) if (keys and rng.chance(4, 5)) else None
+        kind = rng.below(3)
+        if kind == 0:
+            s.append(scn.feed_call(50 + i, nonce, tags=tags))
+        elif kind == 1:
+            s.append(scn.feed_notify(nonce, tags=tags))
+        else:
+            s.append("feedcallc/%d/%d/%s/%s/%s" % (50 + i, rng.choice([0, 1, 2]), scn.M.hex(), T(scn.arg(nonce)), T(tags) if tags is not None else "-"))
+        s.append("waithandlers/%d" % (i + 1))
+        if rng.chance(1, 2):
+            s += [scn.finish(i, nonce), "settle"]
+        inv.append("%d~%s~%s" % (nonce, T(scn.arg(nonce)), T(tags) if tags is not None else "-"))
+    s += ["finishall", "settle"]
+    return scn.line("scn", ident, s, extra="nt=1 quiescent=1 family=served-tags expectinv=%s" % "|".join(inv))
+
+
 def explore(ctx):
     rng, tier = ctx["rng"], ctx["tier"]
     if ctx.get("replay"):
@@ -118,5 +144,7 @@ def explore(ctx):
         lines += tree_cases(rng, {"quick": 8, "thorough": 12, "search": 10}[tier], {"quick": 500, "thorough": 20000, "search": 3000}[tier])
         for k in range({"quick": 300, "thorough": 3000, "search": 800}[tier]):
             lines.append(e2e(rng, "e%d" % k))
+        for k in range({"quick": 60, "thorough": 1000, "search": 150}[tier]):
+            lines.append(served(rng, "v%d" % k))
     triples, tie = C.run_both(ctx, "TestVerifC19", lines, go_timeout=1500)
     return dict(verdicts=triples, tie=tie, stats=dict(tree_cases=sum(1 for l in lines if l.startswith("tags")), e2e=sum(1 for l in lines if l.startswith("scn"))))
